@@ -305,6 +305,7 @@ def qargTruthy : QArg → Bool
   | .pairs l => !l.isEmpty
   | .bytes empty => !empty
   | .other => true
+  | .noArgs => false
 
 /-- `build_pre_encoded_url` -/
 def buildPreEncoded (e : Env) (a : BuildArgs) (port : Option Nat) (queryString : Str) : Url :=
@@ -460,7 +461,8 @@ def updateQuery (e : Env) (u : Url) (a : QArg) : R Url := do
       if items.isEmpty then pure u.query
       else strQueryFromIterable e.b (mdUpdate (strItems (queryPairs u)) items)
     | .bytes empty => if empty then pure u.query else .error .typeError
-    | .other => .error .typeError : R Str)
+    | .other => .error .typeError
+    | .noArgs => .error .valueError : R Str)
   pure (fromParts u.scheme u.netloc u.path query u.fragment)
 
 def withoutQueryParams (e : Env) (u : Url) (names : List Str) : R Url := do
